@@ -189,6 +189,17 @@ func c17Merkle(c *Ctx) {
 		lists = append(lists, l)
 	}
 	for _, l := range lists {
+		c17MerkleList(c, l)
+	}
+}
+
+func c17MerkleList(c *Ctx, l []int) {
+	defer func() {
+		if r := recover(); r != nil {
+			c.Fail("c17/merkle-panic", fmt.Sprintf("panic in common/merkle: %v", r), map[string]interface{}{"leaves": l})
+		}
+	}()
+	{
 		ls := listStr(l)
 		t := buildTree(l)
 		dup := len(t.first) != len(t.nodes)
@@ -302,6 +313,16 @@ func dumpTrie(t nodeIterable) string {
 	})
 }
 
+func clamp(x, lo, hi int) int {
+	if x < lo {
+		return lo
+	}
+	if x > hi {
+		return hi
+	}
+	return x
+}
+
 var keyAlphabet = []byte{0x00, 0x01, 0x10, 0x11, 0xf0, 0xff, 0xab}
 
 func genKeyPool(c *Ctx, fixedLen int, size int) [][]byte {
@@ -373,12 +394,16 @@ func c17Trie(c *Ctx, cdb *store.ChainDatabase) {
 		}
 		c.Op("tnew", "ok")
 		ref := map[string][]byte{}
+		nodes := 1 // entries of the iterator walk (the empty trie shows one nil root)
 		nops := 10 + c.Rnd.Intn(50)
 		for i := 0; i < nops; i++ {
 			k := pool[c.Rnd.Intn(len(pool))]
 			switch r := c.Rnd.Intn(20); {
 			case r < 10:
 				v := genVal(c)
+				if old, had := ref[string(k)]; had && c.Rnd.Intn(6) == 0 {
+					v = old // rewrite the same value: insert reports "not dirty"
+				}
 				out := Safe(func() string {
 					if err := tr.TryUpdate(k, v); err != nil {
 						return "err " + err.Error()
@@ -404,7 +429,10 @@ func c17Trie(c *Ctx, cdb *store.ChainDatabase) {
 				} else {
 					ref[string(k)] = v
 				}
-				c.Op("tdump", dumpTrie(tr))
+				d := dumpTrie(tr)
+				c.Op("tdump", d)
+				c.Count(fmt.Sprintf("tput:nodes%+d", clamp(strings.Count(d, "/")-nodes, -4, 4)))
+				nodes = strings.Count(d, "/")
 			case r < 14:
 				out := Safe(func() string {
 					if err := tr.TryDelete(k); err != nil {
@@ -419,7 +447,10 @@ func c17Trie(c *Ctx, cdb *store.ChainDatabase) {
 					c.Count("tdel:absent")
 				}
 				delete(ref, string(k))
-				c.Op("tdump", dumpTrie(tr))
+				d := dumpTrie(tr)
+				c.Op("tdump", d)
+				c.Count(fmt.Sprintf("tdel:nodes%+d", clamp(strings.Count(d, "/")-nodes, -4, 4)))
+				nodes = strings.Count(d, "/")
 			case r < 17:
 				out := Safe(func() string {
 					v, err := tr.TryGet(k)
